@@ -154,7 +154,8 @@ BUILDS = [False]
 
 def corpus():
     """every operation on every kind of target, on both worlds"""
-    return hist.matrix_cases("c15", ["mem", "phys", "alt_mem", "ovl_mm", "ovl_pp"])
+    stale = [c for c in hist.stale_handle_cases("c15", ["mem", "alt_mem", "ovl_mm"]) if not c.name.endswith("flush_drop")]
+    return hist.matrix_cases("c15", ["mem", "phys", "alt_mem", "ovl_mm", "ovl_pp"]) + stale
 
 
 def generate(rng, tier):
